@@ -190,6 +190,14 @@ class Ctx:
                 probe = CountingBloomFilter(est_elements=1, false_positive_rate=0.35, hash_function=lambda k, d=1: [0, 1][:d] + [0] * max(0, d - 2))
                 probe.add("p", params["cellmax"] + 2)
                 self.patch_ok = max(probe.bloom) == params["cellmax"]
+                # ... and does an ordinary little history still work under the patched constants on this geometry (they may mean something
+                # else to another implementation)?
+                est, fpr = GEOM[(self.M, self.K)]
+                p2 = CountingBloomFilter(est_elements=est, false_positive_rate=fpr, hash_function=lambda k, d=1: list(range(d)))
+                p2.add("p", 1)
+                ok = p2.check("p") == 1 and p2.elements_added == 1 and CountingBloomFilter.frombytes(bytes(p2), hash_function=lambda k, d=1: list(range(d))).check("p") == 1
+                p2.remove("p", 1)
+                self.patch_ok = self.patch_ok and ok and p2.check("p") == 0
             except Exception:  # noqa
                 self.patch_ok = False
 
